@@ -388,12 +388,12 @@ def check_c06(tier):
                    maxids=10 if th else 8, maxops=2, inject=True, ops=ops),
         "emits": [
             # all behaviours of one operation (every panic point) from every initial length
-            (dict(kinds=KINDS, zst=[False], lens=[0, 1, 2, 3], spare=[1], maxlen=4, maxids=10, maxops=1, inject=True,
-                  ops=ops + ["early_close"], keymodes=("pair", "same") if th else ("pair",)), None, None),
-            (dict(kinds=KINDS, zst=[True], lens=[0, 1, 2, 3] if th else [0, 2], spare=[1], maxlen=4, maxids=10, maxops=1,
+            (dict(kinds=KINDS, zst=[False], lens=[0, 1, 2, 3] if th else [0, 2, 3], spare=[1], maxlen=4, maxids=10, maxops=1,
+                  inject=True, ops=ops + ["early_close"], keymodes=("pair", "same") if th else ("pair",)), None, None),
+            (dict(kinds=KINDS, zst=[True], lens=[0, 1, 2, 3] if th else [2], spare=[1], maxlen=4, maxids=10, maxops=1,
                   inject=True, ops=ops + ["early_close"]), None, None),
             (dict(kinds=KINDS, zst=[False, True], lens=[0, 1, 2, 3], spare=[0, 2], maxlen=4, maxids=14, maxops=5 if th else 4,
-                  inject=True, ops=ops, keymodes=("pair", "same", "alt")), 20000 if th else 1200, 16),
+                  inject=True, ops=ops, keymodes=("pair", "same", "alt")), 20000 if th else 1000, 16),
         ] + ([(dict(kinds=[k], zst=[False], lens=[2], spare=[1], maxlen=3, maxids=9, maxops=2, inject=True,
                     ops=CORE_OPS + ["early_close", "drop_inject"]), None, None) for k in KINDS] if th else []),
         "replay_mode": "shapes" if th else "rotate",
